@@ -31,7 +31,9 @@ WORDS = {"duplicate": ("forward", "F AO R W ER D"), "bad-phone": ("zzbad", "G QQ
          "empty-pron": ("zzempty", ""), "alt-without-base": ("zznobase(2)", "G OW")}
 FEEDS = {"tiny": "feed gf 300 100 i16 0 0", "norm": "feed gf 1000 8000 i16 0 0", "f32": "feed gf 9000 5000 f32 0 0",
          "long": "feed gf2 0 40000 i16 0 0", "zero": "feed gf 0 0 i16 0 0", "nosearch": "feed gf 14000 6000 i16 1 0",
-         "full": "feed gf 0 -1 i16 0 1", "full-nosearch": "feed gf2 0 -1 f32 1 1"}
+         "full": "feed gf 0 -1 i16 0 1", "full-nosearch": "feed gf2 0 -1 f32 1 1",
+         # more than the 128-frame cepstrum ring in one float32 call, and a float32 call that straddles its end
+         "f32long": "feed gf2 3000 50000 f32 0 0", "f32nosearch": "feed gf2 1000 30000 f32 1 0"}
 
 
 def render(ops, cfg, data, with_probe=True):
@@ -118,6 +120,34 @@ def run(ctx):
             body = render([], cfg, data)
             cases.append(("bad-config-%d#%d" % (k, len(cases)),
                           body[:1 + len(decmatrix.audio_defs())] + ["init " + decmatrix.hx(json.dumps(c2))] + body[1 + len(decmatrix.audio_defs()):]))
+        # dictionaries of unusual shape (read by decoder_init): a long entry right after a one-phone word, many alternates,
+        # blank lines, comments, trailing blanks, CR-LF, a very long line; and filler dictionaries
+        dshapes = {
+            "long-early": "a AH\nabracadabra AE B R AH K AH D AE B R AH\ngo G OW\nforward F AO R W ER D\nten T EH N\nmeters M IY T ER Z\nstop S T AA P\nbackward B AE K W ER D\n",
+            "long-first": "supercalifragilistic S UW P ER K AE L AH F R AE JH AH L IH S T IH K EH K S P IY AE L AH D OW SH AH S\na AH\ngo G OW\nforward F AO R W ER D\nten T EH N\nmeters M IY T ER Z\nstop S T AA P\nbackward B AE K W ER D\n",
+            "alternates": "go G OW\ngo(2) G AO\ngo(3) G AH\ngo(4) G UW\nforward F AO R W ER D\nforward(2) F AO W ER D\nten T EH N\nmeters M IY T ER Z\nmeters(2) M IY T AH Z\nstop S T AA P\nbackward B AE K W ER D\n",
+            "blank-crlf": "\n\ngo G OW\r\nforward   F AO R W ER D  \r\n\r\nten\tT EH N\nmeters M IY T ER Z\nstop S T AA P\nbackward B AE K W ER D\n\n",
+            "comments": "## a comment\n;; another\ngo G OW\nforward F AO R W ER D\nten T EH N\nmeters M IY T ER Z\nstop S T AA P\nbackward B AE K W ER D\n",
+            "growing": "".join("w%d %s\n" % (i, " ".join(["AH", "B", "K", "D", "EH"][j % 5] for j in range(1 + (i * 7) % 23))) for i in range(60))
+                       + "go G OW\nforward F AO R W ER D\nten T EH N\nmeters M IY T ER Z\nstop S T AA P\nbackward B AE K W ER D\n",
+        }
+        for name, text in sorted(dshapes.items()):
+            dp = os.path.join(ctx.work, "dict-%s.dic" % name)
+            open(dp, "w", newline="").write(text)
+            c2 = dict(cfg, dict=dp)
+            body = render([("gram", "jsgf", "ok"), ("start", "", "ok"), ("feed", "norm", "n"), ("end", "", "ok"), ("hyp", "0", "nullobj"),
+                           ("lookup", "0", "obj"), ("lattice", "1", "nullobj"), ("nbestiter", "1", "nullobj")], c2, data,
+                          with_probe=False)      # (another dictionary: its results are not comparable with the probe's)
+            cases.append(("dict-shape-%s#%d" % (name, len(cases)), body))
+        # lattices with several nodes starting in frame 0 (alternatives at the first position, with and without filler
+        # words, wide beams), walked and abandoned
+        for k, extra in enumerate([{"fsgusefiller": False}, {"fsgusefiller": False, "beam": 1e-80, "wbeam": 1e-60, "pbeam": 1e-80},
+                                   {"beam": 1e-80, "wbeam": 1e-60, "pbeam": 1e-80}, {"fsgusealtpron": False, "fsgusefiller": False}]):
+            c2 = dict(cfg, **extra)
+            ops = [("gram", "jsgf", "ok"), ("start", "", "ok"), ("feed", "norm", "n"), ("lattice", "1", "nullobj"), ("nbestiter", "1", "nullobj"),
+                   ("feed", "f32", "n"), ("nbestiter", "3", "nullobj"), ("end", "", "ok"), ("lattice", "0", "nullobj"), ("nbestiter", "1", "nullobj"),
+                   ("lattice", "1", "nullobj"), ("start", "", "ok"), ("feed", "long", "n"), ("end", "", "ok"), ("nbestiter", "3", "nullobj")]
+            cases.append(("lattice-starts-%d#%d" % (k, len(cases)), render(ops, c2, data, with_probe=False)))
         # results whose words are spelled with bytes that need care when they are formatted (JSON at every level,
         # mid-utterance and at the end, hypothesis string, segment iterator): quotes, backslashes, control and
         # non-ASCII bytes
